@@ -28,6 +28,10 @@ def do_case(ctx, inp):
         arr = big[::2]
     elif lay == "transposed" and arr.ndim == 3:
         arr = np.ascontiguousarray(arr.transpose(2, 1, 0)).transpose(2, 1, 0)      # same values, column-major strides
+    if inp.get("ptype") == "integer_ndarray":
+        arr = pnd.integer_ndarray(arr)            # the library's own array classes as points (default labels)
+    elif inp.get("ptype") == "boolean_ndarray" and arr.size and arr.min() >= 0 and arr.max() <= 1:
+        arr = pnd.boolean_ndarray(arr)
     sat = tolist(g.ineqs_satisfied(arr))
     sep = tolist(g.separable(arr))
     rowsep = tolist(g.ineq_separate_points(arr))
@@ -35,7 +39,7 @@ def do_case(ctx, inp):
     def viol(x): return [dot(cs, x) < b for b, cs in p["rows"]]
     vs = [viol(x) for x in flat]
     facet = any(dot(cs, x) == b for x in flat for b, cs in p["rows"])
-    ctx.case(inp, nontrivial=facet or any(any(v) and not all(v) for v in vs), tags=({"thousands-of-points"} if inp.get("big") else set()) | ({"magnitudes-above-2^53"} if inp.get("huge") else set()) | ({"layout-" + inp["layout"]} if inp.get("layout") else set()) | {f"ndim-{d}", "poly-dtype-" + str(inp.get("pdtype", "int64")), "points-dtype-" + str(inp.get("xdtype", "int64"))}
+    ctx.case(inp, nontrivial=facet or any(any(v) and not all(v) for v in vs), tags=({"thousands-of-points"} if inp.get("big") else set()) | ({"magnitudes-above-2^53"} if inp.get("huge") else set()) | ({"points-as-" + inp["ptype"]} if inp.get("ptype") else set()) | ({"layout-" + inp["layout"]} if inp.get("layout") else set()) | {f"ndim-{d}", "poly-dtype-" + str(inp.get("pdtype", "int64")), "points-dtype-" + str(inp.get("xdtype", "int64"))}
              | ({"facet-point"} if facet else set())
              | ({"row-sum-exceeds-narrow-dtype"} if inp.get("pdtype") in ("int8", "int16") and any(abs(dot(cs, x)) > (127 if inp["pdtype"] == "int8" else 32767) for x in flat for _, cs in p["rows"]) else set()))
     ctx.op({"op": "classify", "p": p, "d": d, "pts": pts}, {"sat": sat, "sep": sep, "rowsep": rowsep})
@@ -131,4 +135,6 @@ def run(ctx):
             inp = {"p": p2, "d": d, "pts": pts2, "pdtype": pd_, "xdtype": xd}
         if ctx.rng.random() < 0.3:
             inp["layout"] = ctx.rng.choice(["fortran", "strided", "transposed"])
+        elif ctx.rng.random() < 0.3:
+            inp["ptype"] = ctx.rng.choice(["integer_ndarray", "integer_ndarray", "boolean_ndarray"])
         do_case(ctx, inp)
